@@ -815,15 +815,30 @@ def rule_r12(prog, res):
     if b is None:
         raise AnalysisError('Wsdl11.build_interface_document', 'not found')
     caches = {}
+    init = w.methods.get('__init__')
+    init_dicts = set()
+    if init is not None:
+        for a in walk_no_defs(init.node):
+            if isinstance(a, ast.Assign) and (
+                    isinstance(a.value, ast.Dict) and not a.value.keys or
+                    isinstance(a.value, ast.Call) and call_name(a.value) in (
+                        'dict', 'odict', 'OrderedDict') and
+                    not a.value.args):
+                for t in a.targets:
+                    if isinstance(t, ast.Attribute) and \
+                            unparse(t.value) == 'self':
+                        init_dicts.add(t.attr)
     for nm, f in w.methods.items():
-        if not nm.startswith('_get_or_create'):
+        if f.cls is not w or nm in ('__init__', 'build_interface_document'):
             continue
         for a in walk_no_defs(f.node):
             if isinstance(a, ast.Assign):
                 for t in a.targets:
                     if isinstance(t, ast.Subscript) and isinstance(
                             t.value, ast.Attribute) and \
-                            unparse(t.value.value) == 'self':
+                            unparse(t.value.value) == 'self' and (
+                                nm.startswith('_get_or_create') or
+                                t.value.attr in init_dicts):
                         caches.setdefault(t.value.attr, f)
     res.floor('R12', 'element caches filled by _get_or_create_*', len(caches),
               2)
@@ -1313,38 +1328,67 @@ def rule_r17(prog, res):
 def rule_r18(prog, res):
     res.rule('R18', 'two Array customisations that share a type name are '
              'taken for one type only when their item elements have the same '
-             'name (one complexType is published for the key)')
+             'name (one complexType is published for the key): the '
+             'comparison covers every waiver two arrays can reach, the '
+             'Array/Iterable pair included')
     itf = prog.cls('spyne.interface._base:Interface')
     h = itf.methods.get('has_class')
     if h is None:
         raise AnalysisError('Interface.has_class', 'not found')
-    same = [b for b in walk_no_defs(h.node) if isinstance(b, ast.If) and
-            unparse(b.test) == 'o1 is o2' and any(
-                isinstance(r, ast.Return) for r in b.body)]
-    res.floor('R18', 'same-original waivers in has_class', len(same), 1)
-    for b in same:
-        blk = b._parent.body if b in getattr(b._parent, 'body', []) else []
-        before = blk[:blk.index(b)] if b in blk else []
-        cmp_ = [st for st in before if isinstance(st, ast.If) and
-                '_type_info' in unparse(st.test) and any(
+    compares = [st for st in walk_no_defs(h.node) if isinstance(st, ast.If)
+                and '_type_info' in unparse(st.test) and any(
                     isinstance(r, ast.Raise) for r in ast.walk(st))]
-        inner = [c for c in ast.walk(b.test)] and [
-            st for st in b.body if isinstance(st, ast.If) and
-            '_type_info' in unparse(st.test)]
-        ok = bool(cmp_) or bool(inner)
-        where = '%s:%d' % (h.module.relpath, b.lineno)
+
+    def precedes(cmp_, ret):
+        """cmp_ is an earlier sibling of ret or of one of its ancestors."""
+        cur = ret
+        while cur is not None and cur is not h.node:
+            par = getattr(cur, '_parent', None)
+            for fld in ('body', 'orelse'):
+                blk = getattr(par, fld, None)
+                if isinstance(blk, list) and any(cur is x for x in blk):
+                    before = blk[:[id(x) for x in blk].index(id(cur))]
+                    if any(cmp_ is x for x in before):
+                        return True
+            cur = par
+        return False
+
+    waivers = []
+    for r in walk_no_defs(h.node):
+        if not (isinstance(r, ast.Return) and isinstance(
+                r.value, ast.Constant) and r.value.value is True):
+            continue
+        atoms = guardspec.atoms_at(r, h.node)
+        if any(('o1 is o2' in t and pol) or ('Array' in t and 'Iterable' in t
+                                              and pol) for t, pol in atoms):
+            waivers.append(r)
+    res.floor('R18', 'array-capable waivers in has_class', len(waivers), 2)
+    for r in waivers:
+        ok = any(precedes(c_, r) for c_ in compares)
+        where = '%s:%d' % (h.module.relpath, r.lineno)
         res.ob('R18', where, 'has_class compares the item names of two '
-               'arrays before it takes them for one type: %s' % ok,
+               'arrays before this waiver: %s' % ok,
                'ok' if ok else 'VIOLATED')
         if not ok:
             res.finding('R18', 'Interface.has_class|array-item-name-not-'
-                        'compared', where, 'every pair of Array(...) '
-                        'customisations has __orig__ Array, so Array(Unicode) '
-                        'and Array(Unicode, member_name="tag") are one type '
-                        'for the interface: one stringArray is published and '
+                        'compared', where, 'this waiver takes two classes '
+                        'with one type name for the same type without a '
+                        'preceding comparison of their item names: Array('
+                        'Unicode) next to Array/Iterable(Unicode, '
+                        'member_name="tag") publishes one stringArray and '
                         'the replies of the other method do not validate '
                         'against it / cannot be decoded by a generated '
                         'client')
+
+
+def rule_r19(prog, res):
+    from . import c06
+    from ..report import Result
+    res.share('R19', 'patterns published as xs:pattern stay in the subset XSD '
+              'and Python share, so the embedded schemas compile (C06-R15)',
+              'C06', c06.rule_r15, prog, Result)
+    res.share('R19', 'every model class gets its schema handler through its '
+              'closest ancestor (C06-R18)', 'C06', c06.rule_r18, prog, Result)
 
 
 def run(prog, res, tier):
@@ -1366,6 +1410,7 @@ def run(prog, res, tier):
     res.run_rule(rule_r16, prog, res)
     res.run_rule(rule_r17, prog, res)
     res.run_rule(rule_r18, prog, res)
+    res.run_rule(rule_r19, prog, res)
 
 
 _S = 'spyne/interface/xml_schema/_base.py'
@@ -1374,6 +1419,16 @@ _I = 'spyne/interface/_base.py'
 _T = 'spyne/util/toposort.py'
 
 MUTANTS = [
+    Mutant('array-item-names-only-for-same-orig', 'R18', 'fire', _I,
+           in_func('Interface.has_class',
+                   r"            if o1 in \(Array, Iterable\) and o2 in "
+                   r"\(Array, Iterable\) \\\n(.*?)\(cls, c, key\)\)\n\n"
+                   r"            if o1 is o2:\n",
+                   "            if o1 is o2:\n"
+                   "                if issubclass(o1, Array) and list(cls._type"
+                   "_info) != list(c._type_info):\n"
+                   "                    raise ValueError('conflicting names')\n",
+                   regex=True), 'array-item-name-not-compared'),
     Mutant('array-item-name-check-removed', 'R18', 'fire', _I,
            in_func('Interface.has_class',
                    r"            if o1 in \(Array, Iterable\) and o2 in "
